@@ -163,34 +163,43 @@ claim("C09",
       design_ref="DESIGN.md §5 C09")
 
 claim("C10",
-      text="Proved in Lean (16 theorems) for all inputs, for the model of the repaired itsdb.Table and TestSuite: every table "
+      text="Proved in Lean (19 theorems) for all inputs, for the model of the repaired itsdb.Table and TestSuite: every table "
            "operation (append, extend, item and slice assignment with any slice/step, update, clear, commit, reload, reopen) "
            "refines the same operation on a plain Python list, keeping the bookkeeping invariant, and this lifts by induction to "
-           "all histories (same list, same stored relation, same exception). Length, indexing, iteration and selection are "
-           "answered from the abstract list; commit stores exactly the list, is idempotent and can fail only on a compressed "
-           "relation; reload returns the committed state; process, with any buffer size, leaves every produced row exactly once "
-           "shown and stored, and a later commit adds nothing.",
+           "all histories (same list, same stored relation, same exception), for plain and compressed files. Length, every "
+           "integer index, iteration, selection and slicing with arbitrary start/stop/step (slice_spec) are answered from the "
+           "abstract list; extended-slice assignment is Python's (ValueError on length mismatch, positions outside the range "
+           "untouched); commit never fails, stores exactly the list, is idempotent and keeps the physical form; reload returns "
+           "the committed state; process, with any buffer size, leaves every produced row exactly once shown and stored, and a "
+           "later commit adds nothing.",
       note="The model is tied to the code only by the correspondence run on generated histories (bounded-exhaustive ≤2 ops from a "
-           "24-op menu on plain and gzip tables, random and long histories, process with scripted processor; full query set after "
-           "every step). Slicing with arbitrary start/stop/step is proved only for table[p:]; the general clause is compared and "
-           "oracle-checked, not proved. Assumed: a relation file is a list of rows; gzip is the identity; the record codec is the "
-           "identity on the generated typed values; FieldMapper is not modelled (oracle re-statement).",
+           "24-op menu on plain and gzip tables, random and long histories, process with a scripted processor; full query set "
+           "after every step). Assumed: a relation file is a list of rows; gzip is a flag; the record codec is the identity on "
+           "the generated typed values; FieldMapper is not modelled (oracle re-statement). Seven defects found here were "
+           "repaired in /repo (F03 F04 F05 F31 F32 F34 F52).",
       technique="Lean 4 proof over executable model (refinement to a list) + differential correspondence with the Python implementation",
       design_ref="DESIGN.md §5 C10")
 
 claim("C11",
-      text="Proved for all inputs of the model of tsql (19 theorems): the hash join equals the nested-loop comprehension (order and "
+      text="Proved for all inputs of the model of tsql (25 theorems): the hash join equals the nested-loop comprehension (order and "
            "multiplicity); each join step keeps exactly the pairs that agree on every shared key name; select is the left-deep "
            "nested-loop join filtered by the condition and projected in order; every returned row is justified by one witness "
            "row per relation satisfying the condition; the single-relation case is stored order and multiplicity; '*' emits "
            "every non-key column and each key name exactly once; comparisons and '~' never match empty fields and '!~' always "
-           "does; a literal/column type mismatch never yields rows; the query parser inverts the printer on every normal-form "
-           "condition tree and every full select with repeated 'where' (conjunction).",
-      note="Parameters of the model, exercised only on the real code: the lexer regexes (the model parses token lists), "
-           "tsdb.cast/int() (cells and literals arrive with their cast values), re.search (shipped as a truth table). Row order of "
-           "joins whose plan depends on Python set iteration is compared as a multiset. Not proved: plan validity. The relational "
-           "oracle judges only tree-linked schemas (the property's space); cyclic key graphs are model-vs-code only (greedy pivot "
-           "choice there is an observation). Precedence of 'not' is undocumented and compared with the model only.",
+           "does; a literal/column type mismatch never yields rows; whenever the planner answers, the join order is valid, "
+           "contains every required relation with its keys, and every other planned relation is a linking relation with more "
+           "than one key that closed a gap (planJoins_valid); for the core schema item/run/parse/result a plan exists for every "
+           "non-empty set of required relations with at most one linking relation; the query parser inverts the printer on every "
+           "normal-form condition tree and every full select with repeated 'where' (conjunction) with a concrete fuel bound "
+           "(3 per token); a character-level model of the 20 ordered lexer classes returns the printer's tokens on their "
+           "rendering (lex_render), giving characters → query (lex_then_parse).",
+      note="Parameters of the model, exercised only on the real code: tsdb.cast/int() (cells and literals arrive with their cast "
+           "values), re.search (shipped as a truth table). The lexer model (ASCII) is compared with the real lexer on every "
+           "generated text and on stress texts; its proved alphabet has one date spelling and double-quoted strings (other "
+           "spellings: correspondence). General plan existence beyond the core schema is not proved (false for tree-linked "
+           "schemas needing two links: decide-checked counter-example; the property says 'at most one linking relation'). Row "
+           "order of joins whose plan depends on Python set iteration is compared as a multiset. The relational oracle judges "
+           "only tree-linked schemas; cyclic key graphs are model-vs-code only.",
       technique="Lean 4 proof over executable model + differential correspondence with the Python implementation",
       design_ref="DESIGN.md §5 C11")
 
@@ -246,34 +255,41 @@ claim("C03",
       design_ref="DESIGN.md §5 C03")
 
 claim("C01",
-      text="For the models of the MRS codecs it is proved (15 theorems), for all inputs, that (a) escaping/unescaping and the "
+      text="For the models of the MRS codecs it is proved (22 theorems), for all inputs: (a) escaping/unescaping and the "
            "double-quoted-string scanner are exact inverses and the scanner stops exactly at the closing quote; (b) "
-           "Lnk(str(l)) = l for all kinds; (c) the SimpleMRS recursive-descent decoder run on the encoder's token list followed "
-           "by any further tokens returns top, index, EPs (predicate, label, arguments, constant, lnk, surface), hcons, icons "
-           "unchanged — with lnk/surface removed exactly when lnk=False — and exactly the remaining tokens, hence multi-item "
-           "documents; (d) the decoded variables map every variable to its property list (first-mention rule proved) and to the "
-           "empty map when properties are off; (e) the MRS-JSON dictionary round trip and its stability for character-span "
-           "alignments. MRX and Indexed MRS are decided by correspondence (MRX) and the direct oracle on the real code.",
-      note="The SimpleMRS regex lexer and text layout (indentation) are not modelled; the model's token encoder is compared with "
-           "the real lexer's output on the real text, and the parser with the real decoder, on generated cases only. MRX is "
-           "modelled at ElementTree level but its round trip is not proved. Indexed MRS is oracle-only. SimpleMRS token stability "
-           "(re-encoding) is not proved (oracle: exact text equality). xml.etree and json are parameters, assumed identity and "
-           "side-checked per case. Case folding is ASCII. U+2029 is treated as a line separator (outside the quantifier).",
+           "Lnk(str(l)) = l for all kinds; (c) SimpleMRS: the recursive-descent decoder run on the encoder's token list followed "
+           "by any further tokens returns top, index, EPs, hcons, icons unchanged — lnk/surface removed exactly when lnk=False — "
+           "and exactly the remaining tokens (hence multi-item documents); the decoded variables carry each variable's property "
+           "list (first-mention rule) or the empty map when properties are off; re-encoding the decoded structure gives the same "
+           "tokens (stability); at character level the model of the SimpleMRS lexer run on the single-line rendering of the "
+           "encoder's tokens returns those tokens, so lex∘render∘toks then parse is the identity view (text round trip); (d) "
+           "MRS-JSON dictionary round trip and stability for character-span alignments; (e) MRX ElementTree round trip "
+           "(xml.etree as identity parameter); (f) Indexed MRS token round trip for a covering SEM-I with CARG at any position in "
+           "the synopsis (repaired lookup F33/F50/F53): same predications and arguments, with remainder.",
+      note="Not proved: for Indexed MRS that matching the written property lists against the SEM-I returns the original property "
+           "maps (needs subsumption facts about the SEM-I's property hierarchy; stated as hypothesis); the indented layouts; the "
+           "Indexed MRS regex lexer; MRX/JSON text level (library parameters, side-checked per case). The models (incl. the "
+           "SimpleMRS lexer model) are tied to the code by correspondence on generated cases: real lexer tokens of real encoder "
+           "text, decoded structures, re-encodings, element trees and dictionaries; long multi-item documents (>1024 and >2048 "
+           "lexer tokens, item boundaries at every offset around the buffer size) and a purity clause (state across calls, "
+           "fresh disagreeing SEM-I per case) run in every tier. Case folding is ASCII. U+2029 is treated as a line separator.",
       technique="Lean 4 proof over executable model + differential correspondence with the Python implementation",
       design_ref="DESIGN.md §5 C01")
 
 claim("C02",
-      text="Proved for the Lean model (21 theorems). SimpleDMRS: token-level encode/decode round trip with arbitrary remainder for "
+      text="Proved for the Lean model (26 theorems). SimpleDMRS: token-level encode/decode round trip with arbitrary remainder for "
            "all option settings and the list API, under the explicit expressibility predicate, and stability of re-encoding; the "
            "F11 hypothesis 'no node of type u' is isolated as _partial, with a counter-example theorem (known finding). "
-           "DMRS-JSON: dictionary round trip. DMRX: tree round trip, assuming the predicate survives realpred splitting (proved "
-           "for abstract predicates). The suppression views: properties=false removes type and properties in DMRX and JSON, only "
-           "properties in SimpleDMRS; lnk=false removes alignment and surface. The node-0 top-link normalisation lemmas. The "
-           "bijective renumbering from 10000 of DMRS-PENMAN (top first, consecutive, connected graphs keep all nodes).",
-      note="Not proved: the PENMAN triples round trip fromTriples∘toTriples = viewP, and create∘split = id for surface predicates; "
-           "both are only compared with the real code. Compared, not proved: the regex lexer, the text layout, indent, and the "
-           "file API. Assumed as parameters and checked by side oracles: xml.etree, json, penman (up to node order; literal PENMAN "
-           "text stability is not demanded, graph equality each round is), ASCII case mapping.",
+           "DMRS-JSON: dictionary round trip and dict-level stability. DMRX: tree round trip with no predicate hypothesis "
+           "(create∘split = id proved for normalised surface predicates and for abstract predicates) and tree-level stability. "
+           "The suppression views: properties=false removes type and properties in DMRX and JSON, only properties in "
+           "SimpleDMRS; lnk=false removes alignment and surface. The node-0 top-link normalisation lemmas. DMRS-PENMAN: "
+           "fromTriples (toTriples d) = viewP d for graphs connected from the top, with the bijective renumbering from 10000 "
+           "(top first, consecutive).",
+      note="Compared, not proved: the regex lexer, the text layouts, indent, and the file API. Assumed as parameters and checked by "
+           "side oracles: xml.etree, json, penman (up to node order; literal PENMAN text stability is not demanded, graph "
+           "equality each round is), ASCII case mapping. Every tier runs long multi-graph documents (>1024 and >2048 lexer "
+           "tokens) and a purity clause (15 interleaved encode/dumps calls over indent settings and APIs must repeat exactly).",
       technique="Lean 4 proof over executable model + differential correspondence with the Python implementation",
       design_ref="DESIGN.md §5 C02")
 
@@ -296,24 +312,23 @@ claim("C15",
       design_ref="DESIGN.md §5 C15")
 
 claim("C06",
-      text="In the Lean model of is_isomorphic/_vf2 (repaired code: antiparallel edge labels merged, self-loop labels compared, "
-           "properties of CARG-bearing predications compared), every complete mapping the matcher returns, and hence every True "
-           "of is_isomorphic, is proved to be a bijection between the nodes of the two encoding graphs that preserves node labels "
+      text="For the Lean model of is_isomorphic/_vf2 (17 theorems; repaired code: antiparallel edge labels merged, self-loop labels "
+           "compared, properties of CARG-bearing predications compared): is_isomorphic never raises; its True is exactly "
+           "isomorphism of the two encoding graphs — a bijection on variables and predications preserving the node-label entry "
            "(normalised predicate, constant, properties when requested) and all role, scope and constraint edges in both "
-           "directions, self-loops included, absent edges mapped to absent edges — so no changed predicate, argument, constant, "
-           "constraint or property is accepted. For bag comparison the two counting identities are proved for any comparison "
-           "predicate, and 'entirely shared' for a shuffled list of equivalent copies under any equivalence relation. "
-           "Completeness (no false negatives, hence reflexivity, symmetry, renaming/reordering invariance) is NOT proved: only "
-           "exhaustiveness of the search over feasible candidates (completeness_partial); those clauses are decided on the real "
-           "code by an exhaustive bijection search (≤7 predications), invariance checks (≤40 predications) and a "
-           "colour-refinement certificate of non-isomorphism.",
-      note="The soundness theorem assumes edge labels that do not start with '--' nor contain ' --' (the marker _vf2_inv_map uses); "
-           "the driver checks this on every case and a decide-checked counter-example shows it is needed. _vf2's iterative stack "
-           "machine is modelled by the recursion it implements; both are tied to the code by comparing graphs, augmented graphs "
-           "and the returned mapping (candidate and backtracking order) on every generated pair. Input space: non-quantifier "
-           "predications have distinct intrinsic variables (at most one without ARG0), no parallel constraints, ASCII names. "
-           "Real-code calls run under a time limit (a matcher that loops is reported as a violation).",
-      technique="Lean 4 proof over executable model (search invariant) + differential correspondence + exhaustive oracle",
+           "directions. Both directions are proved: soundness (search invariant 'injective partial isomorphism') and "
+           "completeness of the backtracking search with its candidate selection and every feasibility test (no extra "
+           "hypotheses, no fuel bound). Hence it is reflexive (unconditionally), symmetric and transitive, and depends only on "
+           "the isomorphism class of the encoding graphs. Bag comparison satisfies both counting identities for any predicate, "
+           "and under is_isomorphic a bag compared with a shuffled list of isomorphic copies of itself is entirely shared.",
+      note="Clean edge labels (no role starting with '--' or containing ' --') are assumed for soundness, symmetry and "
+           "transitivity; a decide-checked counter-example shows the assumption is necessary. Not proved, oracle-checked only "
+           "(exhaustive bijection search ≤7 predications, invariance checks ≤40, colour-refinement certificate): a renamed or "
+           "reordered MRS has an isomorphic encoding graph; isomorphic MRSs pass the size pre-checks; a graph isomorphism reads "
+           "as an MRS isomorphism. The model is tied to the code by comparing the graph, the augmented graph, the returned "
+           "mapping (candidate and backtracking order) and the verdict on every generated pair. Input space: distinct intrinsic "
+           "variables, no parallel constraints, alphanumeric role names.",
+      technique="Lean 4 proof over executable model (soundness + completeness of the matcher) + differential correspondence + exhaustive oracle",
       design_ref="DESIGN.md §5 C06")
 
 claim("C19",
